@@ -490,6 +490,11 @@ def run(ctx):
             # the schema summary of `h_c17 -mode decls` is taken from the sources and the `models:` section alone: a federation
             # schema only loads with the plugin's sources, and which types autobind binds is decided inside cfg.Init()
             continue
+        if any("@goModel(" in open(os.path.join(r_, f_)).read() for r_, _, fs_ in os.walk(os.path.join(root, p))
+               for f_ in fs_ if f_.endswith(".graphql")):
+            # a type bound by the @goModel DIRECTIVE is not generated either, and the schema summary does not know that
+            # binding (it reads the `models:` section only): the order model has no prediction for such a project
+            continue
         rc, so, se = vf.sh([h17, "-mode", "decls", "-dir", os.path.join(root, p)], cwd=vf.GO, env=vf.go_env(), timeout=300)
         if rc != 0:
             raise RuntimeError("decls failed for %s: %s" % (p, (so + se)[-800:]))
